@@ -279,6 +279,8 @@ def gen_flowprops():
         P.Tr(m, fn, emit_name="flowproperties_init_" + shape, option=True,
              ret_annot="option (R * list R * list R * (R -> option R))",
              preset={"pvt_props": (rec, [("col_" + re_sub(c), "list R") for c in cols])}).translate()
+    P.Tr(m, m.funcs["rescale_pseudopressure"], emit_name="rescale_pseudopressure_table", option=True, ret_annot="option (list R * list R)",
+         kinds={"df_pvt": ("rec", [("pressure", "list"), ("pseudopressure", "list")])}).translate()
     init_s = m.method("FlowPropertiesSimple", "__init__")
     body_s = [SelfAttrs().visit(_copy.deepcopy(n)) for n in init_s.body]
     for shape, cols in (("ok", ["pressure", "compressibility", "viscosity"]), ("missing", ["pressure", "viscosity"])):
